@@ -516,6 +516,9 @@ def check_case(ctx, case, pending):
             extra = [p for p in got if p not in want]
             dup = [p for p in set(got) if got.count(p) > 1]
             kind = "missing-error" if missing else ("duplicate-error" if dup and not extra else "unmatched-error")
+            shared = {tuple(p) for p, _t, _n, o in world.calls if o[0] == "raised" and o[3] == 2}
+            if missing and all(p in shared for p in missing):
+                kind += ":shared-error-instance"     # the resolver re-raised ONE ResolverError object
             fail("null-error-bijection:" + kind, "nulls at non-null positions / raised resolvers and errors are not in bijection",
                  {"expected_paths": [list(p) for p in want], "error_paths": [list(p) for p in got]})
         # resolver-supplied message and extensions are passed through at the raising field's path
